@@ -5,7 +5,13 @@
 // Storage `a=[..]` is an exact-size heap array (ASan red zones on both sides); the range is
 // [a+f, a+l) and the elements around it are context with key 7: predicates/comparators set a flag
 // when they are applied to a key-7 element (printed as `!pred-oob`), writes to the context show up
-// in the printed storage.  Output ranges are exact-size heap arrays sized by the std result.
+// in the printed storage.
+// Algorithms that write through an output iterator get a destination storage `dp` context elements (800..), a
+// window of exactly as many positions as the std result needs plus `slack` (filled -1,-2,..), one context element
+// (899), then the ASan red zone; both sides print the returned iterator as an index into it and the WHOLE destination.
+// `it=ra` runs a random-access algorithm on a range-checked iterator: arithmetic that leaves [first,last] or a
+// dereference outside [first,last) is printed as `!iter-oob` (pointer arithmetic outside the object is UB that
+// neither ASan nor UBSan report when nothing is dereferenced).
 #include "proto.hpp"
 
 #include <etl/algorithm.hpp>
@@ -25,6 +31,7 @@ using proto::Line;
 using LL = long long;
 
 static bool g_ctx_touched = false;
+static bool g_iter_oob    = false;
 
 struct E {
     int v = 0;
@@ -60,6 +67,16 @@ struct Eq {
 struct Pred {
     unsigned mask;
     bool operator()(E const& e) const { return ((mask >> key(e)) & 1U) != 0; }
+};
+struct Visit { // for_each's functor: the RETURNED copy carries the number of calls
+    std::vector<LL>* seen;
+    int n = 0;
+    void operator()(E const& e) { seen->push_back(e.v); ++n; }
+};
+struct ND { // no default constructor: shift_right's `if constexpr (is_default_constructible_v<value_type>)` else-branch
+    int v;
+    ND() = delete;
+    ND(int x) : v(x) { }
 };
 static int cls(int cmpKind, E e) { return cmpKind == 2 ? (e.v / 100) % 3 : e.v / 100; }
 
@@ -100,6 +117,45 @@ struct out_it { // output iterator: write-only, single pass
     out_it& operator++() { ++p; return *this; }
     out_it operator++(int) { auto t = *this; ++p; return t; }
 };
+// random-access iterator that knows the range it was handed (indices relative to the storage base)
+template <typename T>
+struct rait {
+    using iterator_category = etl::random_access_iterator_tag;
+    using value_type        = T;
+    using difference_type   = std::ptrdiff_t;
+    using pointer           = T*;
+    using reference         = T&;
+    T* b                    = nullptr;
+    difference_type i = 0, lo = 0, hi = 0;
+    rait() = default;
+    rait(T* b_, difference_type i_, difference_type lo_, difference_type hi_) : b(b_), i(i_), lo(lo_), hi(hi_) { chk(); }
+    void chk() const { if (i < lo || i > hi) g_iter_oob = true; }
+    reference operator*() const
+    {
+        static T dummy{};
+        if (i < lo || i >= hi) { g_iter_oob = true; return dummy; }
+        return b[i];
+    }
+    pointer operator->() const { return &**this; }
+    reference operator[](difference_type k) const { return *(*this + k); }
+    rait& operator++() { ++i; chk(); return *this; }
+    rait operator++(int) { auto t = *this; ++i; chk(); return t; }
+    rait& operator--() { --i; chk(); return *this; }
+    rait operator--(int) { auto t = *this; --i; chk(); return t; }
+    rait& operator+=(difference_type k) { i += k; chk(); return *this; }
+    rait& operator-=(difference_type k) { i -= k; chk(); return *this; }
+    friend rait operator+(rait a, difference_type k) { a += k; return a; }
+    friend rait operator+(difference_type k, rait a) { a += k; return a; }
+    friend rait operator-(rait a, difference_type k) { a -= k; return a; }
+    friend difference_type operator-(rait a, rait c) { return a.i - c.i; }
+    friend bool operator==(rait a, rait c) { return a.i == c.i; }
+    friend bool operator!=(rait a, rait c) { return a.i != c.i; }
+    friend bool operator<(rait a, rait c) { return a.i < c.i; }
+    friend bool operator>(rait a, rait c) { return a.i > c.i; }
+    friend bool operator<=(rait a, rait c) { return a.i <= c.i; }
+    friend bool operator>=(rait a, rait c) { return a.i >= c.i; }
+};
+template <typename T> static T* base(rait<T> w) { return w.b + (w.i < w.lo ? w.lo : w.i > w.hi ? w.hi : w.i); }
 template <typename T> static T* base(T* p) { return p; }
 template <typename T, typename C> static T* base(wit<T, C> w) { return w.p; }
 template <typename T> static T* base(out_it<T> w) { return w.p; }
@@ -109,6 +165,10 @@ template <typename Cat> struct mk_wit { template <typename T> wit<T, Cat> operat
 using mk_in   = mk_wit<etl::input_iterator_tag>;
 using mk_fwd  = mk_wit<etl::forward_iterator_tag>;
 using mk_bidi = mk_wit<etl::bidirectional_iterator_tag>;
+struct mk_ra { // range-checked random access over [b+lo, b+hi]
+    void* b0; std::ptrdiff_t lo, hi;
+    template <typename T> rait<T> operator()(T* p) const { return rait<T>(static_cast<T*>(b0), p - static_cast<T*>(b0), lo, hi); }
+};
 struct mk_outp { template <typename T> T* operator()(T* p) const { return p; } };
 struct mk_outw { template <typename T> out_it<T> operator()(T* p) const { return out_it<T>{p}; } };
 
@@ -152,8 +212,8 @@ template <typename F> static std::string with_in_out(std::string const& it, F fn
 template <typename F> static std::string with_bidi_outp(std::string const& it, F fn)
 {
     if (it == "ptr") return fn(mk_ptr{}, mk_outp{});
-    if (it == "bidi") return fn(mk_bidi{}, mk_outp{});
-    bad_kind(it, "bidirectional source / pointer destination");
+    if (it == "bidi") return fn(mk_bidi{}, mk_outw{});
+    bad_kind(it, "bidirectional source");
 }
 template <typename F> static std::string with_fwd_out(std::string const& it, F fn)
 {
@@ -234,9 +294,12 @@ static bool eq_dflt(Line const& l) { return !l.has("eq") || l.str("eq") == "dflt
 template <typename F> static std::string impl(F fn)
 {
     g_ctx_touched = false;
+    g_iter_oob    = false;
     std::string r = fn();
     if (g_ctx_touched) r += " !pred-oob";
+    if (g_iter_oob) r += " !iter-oob";
     g_ctx_touched = false;
+    g_iter_oob    = false;
     return r;
 }
 
@@ -261,6 +324,18 @@ static std::string step(Line const& ln)
     Cmp const cmp{cmp_kind(ln)};
     Eq const eq{eq_kind(ln)};
     int const ck = cmp.kind;
+    std::size_t const dp    = static_cast<std::size_t>(ln.i("dp", 0));
+    std::size_t const slack = static_cast<std::size_t>(ln.i("slack", 0));
+    std::size_t const G0    = static_cast<std::size_t>(ln.i("g", 0));
+    std::size_t const H0    = ln.has("h") ? static_cast<std::size_t>(ln.i("h")) : H;
+    if (!(G0 <= H0 && H0 <= H)) return "bad-op\tbad-op";
+    auto mk_dest = [&](std::size_t room) {
+        std::vector<LL> dv;
+        for (std::size_t t = 0; t < dp; ++t) dv.push_back(800 + static_cast<LL>(t));
+        for (std::size_t t = 0; t < room; ++t) dv.push_back(-1 - static_cast<LL>(t));
+        dv.push_back(899);
+        return dv;
+    };
 
     // ---- read-only single range -------------------------------------------------------------
     auto ro = [&](auto etl_fn, auto std_fn) { // both return std::string given (first,last) iterators / pointers
@@ -286,8 +361,8 @@ static std::string step(Line const& ln)
     if (op == "count_if") return ro([&](auto F, auto L, E*) { return ri(etl::count_if(F, L, p)); }, [&](E* F, E* L, E*) { return ri(std::count_if(F, L, p)); });
     if (op == "for_each") {
         return ro(
-            [&](auto F, auto L, E*) { std::vector<LL> seen; etl::for_each(F, L, [&seen](E const& e) { seen.push_back(e.v); }); return fl(seen); },
-            [&](E* F, E* L, E*) { std::vector<LL> seen; std::for_each(F, L, [&seen](E const& e) { seen.push_back(e.v); }); return fl(seen); });
+            [&](auto F, auto L, E*) { std::vector<LL> seen; auto r = etl::for_each(F, L, Visit{&seen}); return fl(seen) + " fn=" + std::to_string(r.n); },
+            [&](E* F, E* L, E*) { std::vector<LL> seen; auto r = std::for_each(F, L, Visit{&seen}); return fl(seen) + " fn=" + std::to_string(r.n); });
     }
     if (op == "for_each_n") {
         return ro(
@@ -374,18 +449,18 @@ static std::string step(Line const& ln)
         Buf a(av);
         Buf b(bv);
         std::string re = impl([&] {
-            return with_in(it, [&](auto mk) { return etl_fn(mk(a.p + f), mk(a.p + l), mk(b.p), mk(b.p + H), a.p, b.p); });
+            return with_in(it, [&](auto mk) { return etl_fn(mk(a.p + f), mk(a.p + l), mk(b.p + G0), mk(b.p + H0), a.p, b.p); });
         });
-        std::string rs = std_fn(a.p + f, a.p + l, b.p, b.p + H, a.p, b.p);
+        std::string rs = std_fn(a.p + f, a.p + l, b.p + G0, b.p + H0, a.p, b.p);
         return out(re, rs);
     };
     auto ro2_fwd = [&](auto etl_fn, auto std_fn) {
         Buf a(av);
         Buf b(bv);
         std::string re = impl([&] {
-            return with_fwd(it, [&](auto mk) { return etl_fn(mk(a.p + f), mk(a.p + l), mk(b.p), mk(b.p + H), a.p, b.p); });
+            return with_fwd(it, [&](auto mk) { return etl_fn(mk(a.p + f), mk(a.p + l), mk(b.p + G0), mk(b.p + H0), a.p, b.p); });
         });
-        std::string rs = std_fn(a.p + f, a.p + l, b.p, b.p + H, a.p, b.p);
+        std::string rs = std_fn(a.p + f, a.p + l, b.p + G0, b.p + H0, a.p, b.p);
         return out(re, rs);
     };
     if (op == "search") {
@@ -454,7 +529,14 @@ static std::string step(Line const& ln)
     auto inplace_ra = [&](auto etl_fn, auto std_fn) {
         Buf a(av);
         Buf s(av);
-        std::string re = impl([&] { return etl_fn(a.p + f, a.p + l, a.p, mk_ptr{}); });
+        std::string re = impl([&] {
+            if (it == "ra") {
+                mk_ra mk{a.p, static_cast<std::ptrdiff_t>(f), static_cast<std::ptrdiff_t>(l)};
+                return etl_fn(mk(a.p + f), mk(a.p + l), a.p, mk);
+            }
+            if (it != "ptr") bad_kind(it, "random access");
+            return etl_fn(a.p + f, a.p + l, a.p, mk_ptr{});
+        });
         std::string rs = std_fn(s.p + f, s.p + l, s.p, mk_ptr{});
         return out(re, rs);
     };
@@ -508,14 +590,15 @@ static std::string step(Line const& ln)
         Buf a(av), b(bv);
         std::vector<E> big(N + H + 8);
         E* se = std_fn(a.p + f, a.p + l, b.p, b.p + H, big.data());
-        std::size_t const k = static_cast<std::size_t>(se - big.data());
-        std::string rs = fl(vals(big.data(), k));
-        Buf d(k);
-        for (std::size_t t = 0; t < k; ++t) d.p[t] = E{-1};
+        std::size_t const k      = static_cast<std::size_t>(se - big.data());
+        std::vector<LL> const dv = mk_dest(k + slack);
+        Buf ds(dv), de(dv);
+        E* sr          = std_fn(a.p + f, a.p + l, b.p, b.p + H, ds.p + dp);
+        std::string rs = ri(sr - ds.p) + " d=" + fl(vals(ds.p, dv.size()));
         std::string re = impl([&] {
             return disp(it, [&](auto mk, auto mko) {
-                auto r = etl_fn(mk(a.p + f), mk(a.p + l), mk(b.p), mk(b.p + H), mko(d.p));
-                return fl(vals(d.p, static_cast<std::size_t>(base(r) - d.p)));
+                auto r = etl_fn(mk(a.p + f), mk(a.p + l), mk(b.p), mk(b.p + H), mko(de.p + dp));
+                return ri(base(r) - de.p) + " d=" + fl(vals(de.p, dv.size()));
             });
         });
         return out(re, rs);
@@ -533,15 +616,18 @@ static std::string step(Line const& ln)
 #define OUT2(NAME, ...)                                                                                                \
     return to_out([&](auto F, auto L, auto G, auto Hh, auto D) { return etl::NAME(F, L, G, Hh, D, ##__VA_ARGS__); },   \
         [&](E* F, E* L, E* G, E* Hh, E* D) { return std::NAME(F, L, G, Hh, D, ##__VA_ARGS__); })
+    if (op == "copy_out") OUT1(copy);
+    if (op == "move_out")
+        return to_out([&](auto F, auto L, auto, auto, auto D) { return etl::move(F, L, D); }, [&](E* F, E* L, E*, E*, E* D) { return std::move(F, L, D); });
     if (op == "copy_if") OUT1(copy_if, p);
     if (op == "copy_n")
         return to_out([&](auto F, auto, auto, auto, auto D) { return etl::copy_n(F, cnt, D); }, [&](E* F, E*, E*, E*, E* D) { return std::copy_n(F, cnt, D); });
     if (op == "remove_copy") OUT1(remove_copy, v);
     if (op == "remove_copy_if") OUT1(remove_copy_if, p);
     if (op == "unique_copy") {
-        // unique_copy reads back through the destination: forward destination required (pointer)
-        if (eq_dflt(ln)) OUT1B(unique_copy);
-        OUT1B(unique_copy, eq);
+        // pointer destination: the read-back branch; output-iterator wrapper (it=in|fwd): the value-copy branch
+        if (eq_dflt(ln)) OUT1(unique_copy);
+        OUT1(unique_copy, eq);
     }
     if (op == "reverse_copy") {
         OUT1B(reverse_copy);
@@ -567,16 +653,21 @@ static std::string step(Line const& ln)
     if (op == "partition_copy") {
         Buf a(av);
         std::vector<E> t1(N + 1), t2(N + 1);
-        auto sr = std::partition_copy(a.p + f, a.p + l, t1.data(), t2.data(), p);
-        std::size_t k1 = static_cast<std::size_t>(sr.first - t1.data()), k2 = static_cast<std::size_t>(sr.second - t2.data());
-        Buf d1(k1), d2(k2);
+        auto s0 = std::partition_copy(a.p + f, a.p + l, t1.data(), t2.data(), p);
+        std::size_t k1 = static_cast<std::size_t>(s0.first - t1.data()), k2 = static_cast<std::size_t>(s0.second - t2.data());
+        std::vector<LL> const v1 = mk_dest(k1 + slack), v2 = mk_dest(k2 + slack);
+        Buf s1(v1), s2(v2), d1(v1), d2(v2);
+        auto show = [&](std::ptrdiff_t r1, std::ptrdiff_t r2, E* x, E* y) {
+            return "r=" + std::to_string(r1) + "," + std::to_string(r2) + " d=" + fl(vals(x, v1.size())) + " e=" + fl(vals(y, v2.size()));
+        };
+        auto sr        = std::partition_copy(a.p + f, a.p + l, s1.p + dp, s2.p + dp, p);
         std::string re = impl([&] {
             return with_in_out(it, [&](auto mk, auto mko) {
-                auto r = etl::partition_copy(mk(a.p + f), mk(a.p + l), mko(d1.p), mko(d2.p), p);
-                return fl(vals(d1.p, static_cast<std::size_t>(base(r.first) - d1.p))) + "|" + fl(vals(d2.p, static_cast<std::size_t>(base(r.second) - d2.p)));
+                auto r = etl::partition_copy(mk(a.p + f), mk(a.p + l), mko(d1.p + dp), mko(d2.p + dp), p);
+                return show(base(r.first) - d1.p, base(r.second) - d2.p, d1.p, d2.p);
             });
         });
-        return out(re, fl(vals(t1.data(), k1)) + "|" + fl(vals(t2.data(), k2)));
+        return out(re, show(sr.first - s1.p, sr.second - s2.p, s1.p, s2.p));
     }
 
     // ---- in place, continued ----------------------------------------------------------------
@@ -611,6 +702,18 @@ static std::string step(Line const& ln)
         return inplace_fwd([&](auto F, auto L, E* a0, auto) { return show(a0, base(etl::shift_left(F, L, cnt))); },
             [&](E* F, E* L, E* a0, auto) { return show(a0, std::shift_left(F, L, cnt)); });
     }
+    if (op == "shift_right" && ov == "nd") { // value type without default constructor: no clean-up loop
+        bool const moved = cnt > 0 && static_cast<std::size_t>(cnt) < n;
+        proto::heap_buf<ND> a(av), s2(av);
+        auto show = [&](ND* a0, ND* r) {
+            std::size_t k = static_cast<std::size_t>(r - a0);
+            std::string o = ri(r - a0) + " a=[";
+            for (std::size_t t = 0; t < N; ++t) o += (t ? "," : "") + (((moved ? f : k) <= t && t < k) ? std::string("_") : std::to_string(a0[t].v));
+            return o + "]";
+        };
+        std::string re = impl([&] { return with_bidi(it, [&](auto mk) { return show(a.p, base(etl::shift_right(mk(a.p + f), mk(a.p + l), cnt))); }); });
+        return out(re, show(s2.p, std::shift_right(s2.p + f, s2.p + l, cnt)));
+    }
     if (op == "shift_right") {
         bool const moved = cnt > 0 && static_cast<std::size_t>(cnt) < n;
         auto show = [&](E* a0, E* r) { std::size_t k = static_cast<std::size_t>(r - a0); return ri(r - a0) + " a=" + fmt_mask(a0, N, moved ? f : k, k); };
@@ -621,36 +724,36 @@ static std::string step(Line const& ln)
         return inplace_fwd([&](auto F, auto L, E* a0, auto) { auto r = etl::partition(F, L, p); return canon_partition(a0, N, f, l, static_cast<std::size_t>(base(r) - a0)); },
             [&](E* F, E* L, E* a0, auto) { auto r = std::partition(F, L, p); return canon_partition(a0, N, f, l, static_cast<std::size_t>(r - a0)); });
     if (op == "stable_partition")
-        return inplace_ra([&](E* F, E* L, E* a0, auto) { auto r = etl::stable_partition(F, L, p); return IDX(r) + " " + arr(a0); },
+        return inplace_bidi([&](auto F, auto L, E* a0, auto) { auto r = etl::stable_partition(F, L, p); return IDX(r) + " " + arr(a0); },
             [&](E* F, E* L, E* a0, auto) { auto r = std::stable_partition(F, L, p); return IDX(r) + " " + arr(a0); });
     if (op == "sort" || op == "gnome_sort" || op == "bubble_sort" || op == "exchange_sort") {
         bool d = cmp_dflt(ln);
         auto stdf = [&](E* F, E* L, E* a0, auto) { if (d) std::sort(F, L); else std::sort(F, L, cmp); return canon_sort(ck, a0, N, f, l); };
-        if (op == "sort") return inplace_ra([&](E* F, E* L, E* a0, auto) { if (d) etl::sort(F, L); else etl::sort(F, L, cmp); return canon_sort(ck, a0, N, f, l); }, stdf);
+        if (op == "sort") return inplace_ra([&](auto F, auto L, E* a0, auto) { if (d) etl::sort(F, L); else etl::sort(F, L, cmp); return canon_sort(ck, a0, N, f, l); }, stdf);
         if (op == "gnome_sort") return inplace_bidi([&](auto F, auto L, E* a0, auto) { if (d) etl::gnome_sort(F, L); else etl::gnome_sort(F, L, cmp); return canon_sort(ck, a0, N, f, l); }, stdf);
-        if (op == "bubble_sort") return inplace_ra([&](E* F, E* L, E* a0, auto) { if (d) etl::bubble_sort(F, L); else etl::bubble_sort(F, L, cmp); return canon_sort(ck, a0, N, f, l); }, stdf);
-        return inplace_ra([&](E* F, E* L, E* a0, auto) { if (d) etl::exchange_sort(F, L); else etl::exchange_sort(F, L, cmp); return canon_sort(ck, a0, N, f, l); }, stdf);
+        if (op == "bubble_sort") return inplace_ra([&](auto F, auto L, E* a0, auto) { if (d) etl::bubble_sort(F, L); else etl::bubble_sort(F, L, cmp); return canon_sort(ck, a0, N, f, l); }, stdf);
+        return inplace_ra([&](auto F, auto L, E* a0, auto) { if (d) etl::exchange_sort(F, L); else etl::exchange_sort(F, L, cmp); return canon_sort(ck, a0, N, f, l); }, stdf);
     }
     if (op == "nth_element") {
         bool d = cmp_dflt(ln);
-        return inplace_ra([&](E* F, E* L, E* a0, auto) { if (d) etl::nth_element(F, a0 + m, L); else etl::nth_element(F, a0 + m, L, cmp); return canon_nth(ck, a0, N, f, m, l); },
+        return inplace_ra([&](auto F, auto L, E* a0, auto mk) { if (d) etl::nth_element(F, mk(a0 + m), L); else etl::nth_element(F, mk(a0 + m), L, cmp); return canon_nth(ck, a0, N, f, m, l); },
             [&](E* F, E* L, E* a0, auto) { if (d) std::nth_element(F, a0 + m, L); else std::nth_element(F, a0 + m, L, cmp); return canon_nth(ck, a0, N, f, m, l); });
     }
     if (op == "partial_sort") {
         bool d = cmp_dflt(ln);
-        return inplace_ra([&](E* F, E* L, E* a0, auto) { if (d) etl::partial_sort(F, a0 + m, L); else etl::partial_sort(F, a0 + m, L, cmp); return canon_partial(ck, a0, N, f, m, l); },
+        return inplace_ra([&](auto F, auto L, E* a0, auto mk) { if (d) etl::partial_sort(F, mk(a0 + m), L); else etl::partial_sort(F, mk(a0 + m), L, cmp); return canon_partial(ck, a0, N, f, m, l); },
             [&](E* F, E* L, E* a0, auto) { if (d) std::partial_sort(F, a0 + m, L); else std::partial_sort(F, a0 + m, L, cmp); return canon_partial(ck, a0, N, f, m, l); });
     }
     if (op == "stable_sort" || op == "insertion_sort" || op == "merge_sort") {
         bool d = cmp_dflt(ln);
         auto stdf = [&](E* F, E* L, E* a0, auto) { if (d) std::stable_sort(F, L); else std::stable_sort(F, L, cmp); return arr(a0); };
-        if (op == "stable_sort") return inplace_ra([&](E* F, E* L, E* a0, auto) { if (d) etl::stable_sort(F, L); else etl::stable_sort(F, L, cmp); return arr(a0); }, stdf);
-        if (op == "insertion_sort") return inplace_ra([&](E* F, E* L, E* a0, auto) { if (d) etl::insertion_sort(F, L); else etl::insertion_sort(F, L, cmp); return arr(a0); }, stdf);
-        return inplace_ra([&](E* F, E* L, E* a0, auto) { if (d) etl::merge_sort(F, L); else etl::merge_sort(F, L, cmp); return arr(a0); }, stdf);
+        if (op == "stable_sort") return inplace_ra([&](auto F, auto L, E* a0, auto) { if (d) etl::stable_sort(F, L); else etl::stable_sort(F, L, cmp); return arr(a0); }, stdf);
+        if (op == "insertion_sort") return inplace_ra([&](auto F, auto L, E* a0, auto) { if (d) etl::insertion_sort(F, L); else etl::insertion_sort(F, L, cmp); return arr(a0); }, stdf);
+        return inplace_ra([&](auto F, auto L, E* a0, auto) { if (d) etl::merge_sort(F, L); else etl::merge_sort(F, L, cmp); return arr(a0); }, stdf);
     }
     if (op == "inplace_merge") {
         bool d = cmp_dflt(ln);
-        return inplace_ra([&](E* F, E* L, E* a0, auto) { if (d) etl::inplace_merge(F, a0 + m, L); else etl::inplace_merge(F, a0 + m, L, cmp); return arr(a0); },
+        return inplace_bidi([&](auto F, auto L, E* a0, auto mk) { if (d) etl::inplace_merge(F, mk(a0 + m), L); else etl::inplace_merge(F, mk(a0 + m), L, cmp); return arr(a0); },
             [&](E* F, E* L, E* a0, auto) { if (d) std::inplace_merge(F, a0 + m, L); else std::inplace_merge(F, a0 + m, L, cmp); return arr(a0); });
     }
 
@@ -705,19 +808,26 @@ static std::string step(Line const& ln)
         if (op == "partial_sum" || op == "adjacent_difference") {
             NB a(av);
             std::vector<LL> big(N + 1);
-            auto d2   = [&](LL x, LL y) { return nop == "dflt" ? x - y : f2(x, y); };
-            LL* se    = op == "partial_sum" ? (nop == "dflt" ? std::partial_sum(a.p + f, a.p + l, big.data()) : std::partial_sum(a.p + f, a.p + l, big.data(), f2))
-                                            : std::adjacent_difference(a.p + f, a.p + l, big.data(), d2);
-            std::size_t k = static_cast<std::size_t>(se - big.data());
-            big.resize(k);
-            NB d(k);
-            LL* re = num_in([&](auto mk) {
+            auto d2    = [&](LL x, LL y) { return nop == "dflt" ? x - y : f2(x, y); };
+            auto stdfn = [&](LL* D) {
+                return op == "partial_sum" ? (nop == "dflt" ? std::partial_sum(a.p + f, a.p + l, D) : std::partial_sum(a.p + f, a.p + l, D, f2))
+                                           : std::adjacent_difference(a.p + f, a.p + l, D, d2);
+            };
+            std::size_t const k      = static_cast<std::size_t>(stdfn(big.data()) - big.data());
+            std::vector<LL> const dv = mk_dest(k + slack);
+            NB ds(dv), de(dv);
+            LL* sr = stdfn(ds.p + dp);
+            auto show = [&](std::ptrdiff_t r, NB const& x) { return ri(r) + " d=" + fl(x.to_list()); };
+            std::ptrdiff_t re = 0;
+            auto run = [&](auto mk, auto D) {
                 auto F = mk(a.p + f); auto L = mk(a.p + l);
-                if (op == "partial_sum") return nop == "dflt" ? etl::partial_sum(F, L, d.p) : etl::partial_sum(F, L, d.p, f2);
-                return nop == "dflt" ? etl::adjacent_difference(F, L, d.p) : etl::adjacent_difference(F, L, d.p, d2);
-            });
-            std::vector<LL> got(d.p, re);
-            return out(fl(got), fl(big));
+                if (op == "partial_sum") return base(nop == "dflt" ? etl::partial_sum(F, L, D) : etl::partial_sum(F, L, D, f2)) - de.p;
+                return base(nop == "dflt" ? etl::adjacent_difference(F, L, D) : etl::adjacent_difference(F, L, D, d2)) - de.p;
+            };
+            if (it == "ptr") re = run(mk_ptr{}, de.p + dp);
+            else if (it == "in") re = run(mk_in{}, out_it<LL>{de.p + dp});
+            else re = run(mk_fwd{}, out_it<LL>{de.p + dp});
+            return out(show(re, de), show(sr - ds.p, ds));
         }
     }
     return "bad-op\tbad-op";
